@@ -1050,6 +1050,27 @@ def roundtrip(main, include_data):
         return 'load-raises', e, _culprit_type(e, False)
 
 
+def edit_loaded(main, edits):
+    dc = main.data_collection if hasattr(main, 'data_collection') else main
+    for d in dc:
+        for k, v in STYLES[edits.get('style', 'default')].items():
+            setattr(d.style, k, v)
+        for k, v in METAS[edits.get('meta', 'none')].items():
+            if isinstance(v, str) and v.startswith('<<'):
+                continue
+            d.meta[k] = v
+    for g in dc.subset_groups:
+        for k, v in STYLES[edits.get('group_style', 'default')].items():
+            setattr(g.style, k, v)
+    if edits.get('new_group'):
+        d = dc[0]
+        g = dc.new_subset_group('added later', d.id[d.main_components[0].label] > 0)
+        for k, v in STYLES[edits.get('group_style', 'default')].items():
+            setattr(g.style, k, v)
+    if edits.get('relabel'):
+        dc[0].label = dc[0].label + ' (edited)'
+
+
 def is_nontrivial(obs):
     """A case counts as non-trivial when the first subset group (the state under test) is a proper
     non-empty selection on some dataset, or (no groups) the session has categorical / datetime /
@@ -1109,6 +1130,21 @@ def run_case(case, res=None):
             o2 = observe(r2, False)
             for clause, key, obs, exp in compare(o1, o2, r1, r2, case):
                 viol.append(('idempotence', 'idempotence|' + key, obs, exp, 'second round trip differs from first'))
+        if case.get('after_load'):
+            # a restored session is an object like any other: the user goes on working with it and saves again
+            edit_loaded(r1, case['after_load'])
+            o3 = observe(r1, True)
+            st3, r3, who3 = roundtrip(r1, inc)
+            if st3 == 'loud':
+                if res is not None:
+                    res.count('loud_saves_after_load')
+            elif st3 != 'ok':
+                viol.append(('load-raises', 'edited-after-load|load-raises|%s|%s|%s' % (type(r3).__name__, who3, _slug(r3)),
+                             repr(r3)[:300], 'restored session', 'focus=%s' % focus))
+            else:
+                for clause, key, obs, exp in compare(o3, observe(r3, False), r1, r3, case):
+                    viol.append((clause, 'edited-after-load|' + key, obs, exp,
+                                 'session loaded, edited (%s), saved and loaded again' % core.jdump(case['after_load'])))
     if res is not None:
         sig = core.short_hash(core.jdump(case, sort_keys=True)) if (status != 'loud' and is_nontrivial(o0)) else None
         res.case(sig=sig, sample=dict(focus=focus, status=status))
@@ -1266,6 +1302,20 @@ def style_cases(tier):
     return out
 
 
+def reload_cases(tier):
+    """Sessions that are loaded, edited and saved again (style / meta / groups changed on the restored objects)."""
+    out = []
+    for st in sorted(STYLES):
+        for gst in (sorted(STYLES) if tier == 'thorough' else ['default', 's1', 's4']):
+            for extra in ({}, {'new_group': True, 'relabel': True}):
+                for me in (sorted(METAS) if tier == 'thorough' else ['none', 'm1']):
+                    edits = dict(style=st, group_style=gst, meta=me, **extra)
+                    out.append(dict(focus='edited-after-load', datasets=[['tab', {}], ['img', {'style': 's2'}]],
+                                    groups=[dict(state=['K', 'tab'], label='g'), dict(state=['K', 'img'], style='s3')],
+                                    after_load=edits))
+    return out
+
+
 LABELS = ['same', '__main__', 'st__x', '', 'donn\u00e9es \u03b1', 'a.b/c d', 'Pixel Axis 0 [x]', 'n0', 'tab_0']
 
 
@@ -1369,7 +1419,7 @@ def multi_cases(tier):
 
 def all_cases(tier):
     base = state_cases(tier) + link_cases(tier) + join_cases(tier)
-    cases = base + kind_cases(tier) + style_cases(tier) + file_cases(tier) + multi_cases(tier) + label_cases(tier)
+    cases = base + kind_cases(tier) + style_cases(tier) + reload_cases(tier) + file_cases(tier) + multi_cases(tier) + label_cases(tier)
     cases += app_cases(tier, base)
     if tier == 'quick':
         p = core.seed() % 3
